@@ -33,7 +33,8 @@ func TestMain(m *testing.M) {
 }
 
 type Chain struct {
-	Logger int          `json:"logger"` // 0 root, 1 child with context, 2 grandchild with hook, 3 global log.Logger, 4 child whose first hook discards debug events
+	Logger int          `json:"logger"`           // 0 root, 1 child with context, 2 grandchild with hook, 3 global log.Logger, 4 child whose first hook discards debug events, 5 a With() child owned by goroutine 0 (the only one that updates its context), 6 a Level() copy of 5 taken before any update
+	Update int          `json:"update,omitempty"` // logger 5 only, before the event: 1 UpdateContext(add a field), 2 UpdateContext(Reset, add a field)
 	Ev     lp.EventSpec `json:"event"`
 }
 
@@ -129,7 +130,9 @@ func loggers(w *checkWriter, syncW bool) []*zerolog.Logger {
 	l2 := l1.With().Bool("deep", true).Logger().Hook(hook{})
 	l3 := l0.With().Str("global", "log").Logger()
 	l4 := l1.Hook(discardDebug{}, hook{}, hook{})
-	return []*zerolog.Logger{&l0, &l1, &l2, &l3, &l4}
+	l5 := l1.With().Str("own", "er").Str("tenant", "t-42").Logger()
+	l6 := l5.Level(zerolog.DebugLevel)
+	return []*zerolog.Logger{&l0, &l1, &l2, &l3, &l4, &l5, &l6}
 }
 
 func emit(ls []*zerolog.Logger, c Chain) {
@@ -139,6 +142,12 @@ func emit(ls []*zerolog.Logger, c Chain) {
 		e := lp.Start(&zlog.Logger, c.Ev)
 		lp.Finish(lp.ApplyEvent(e, c.Ev.Ops), c.Ev)
 		return
+	}
+	switch c.Update {
+	case 1:
+		ls[5].UpdateContext(func(x zerolog.Context) zerolog.Context { return x.Str("upd", "more") })
+	case 2:
+		ls[5].UpdateContext(func(x zerolog.Context) zerolog.Context { return x.Reset().Str("region", "eu-west-1") })
 	}
 	e := lp.Start(ls[c.Logger], c.Ev)
 	lp.Finish(lp.ApplyEvent(e, c.Ev.Ops), c.Ev)
@@ -276,7 +285,15 @@ func genWorkload(rt *rapid.T, maxG int) *Workload {
 		n := rapid.IntRange(1, 6).Draw(rt, "n")
 		var cs []Chain
 		for k := 0; k < n; k++ {
-			cs = append(cs, genChain(rt, g))
+			c := genChain(rt, g)
+			// logger 5 belongs to goroutine 0, which may update its context between events; its
+			// Level() copy (6) is used by everybody and must keep emitting the original fields
+			if i == 0 && rapid.IntRange(0, 2).Draw(rt, "own") == 0 {
+				c.Logger, c.Update = 5, rapid.IntRange(0, 2).Draw(rt, "upd")
+			} else if rapid.IntRange(0, 5).Draw(rt, "copy") == 0 {
+				c.Logger = 6
+			}
+			cs = append(cs, c)
 		}
 		wl.G = append(wl.G, cs)
 	}
